@@ -8,8 +8,10 @@ incl. the uniqueness checks of `add_arg`, `Ctx.asKwargs` = `ParserContext.as_kwa
 A signature is a list of parameters (name, default) plus the decorator options.  Hypotheses used:
 
 * `IdentSig ps`      — every name is an ASCII identifier `[A-Za-z_][A-Za-z0-9_]*`;
-* `NoBlankName ps`   — no name consists of underscores only (`_`, `__`: known finding #29, see
-                        `underscore_only_counterexample`);
+* `NonEmptyNames ps` — no name is the empty string (implied by `IdentSig`; a Python parameter has a name);
+* `NoBlankName ps`   — every CLI name is non-empty, i.e. no name consists of underscores only (`_`, `__`).
+                        Since fix #29 `get_arguments` refuses such a parameter, so for a context that was
+                        built this is *derived* (`built_implies_no_blank_name`), not assumed;
 * `(ps.map name).Nodup` — Python refuses duplicate parameter names.
 
 All theorems quantify over *all* parameter lists, defaults and decorator options. -/
@@ -17,8 +19,43 @@ namespace Inv
 
 /-- every parameter name is an ASCII Python identifier -/
 def IdentSig (ps : List Param) : Prop := ∀ p ∈ ps, pyIdent p.name = true
-/-- no parameter is named with underscores only -/
-def NoBlankName (ps : List Param) : Prop := ∀ p ∈ ps, allUnderscores p.name = false
+/-- no parameter name is the empty string -/
+def NonEmptyNames (ps : List Param) : Prop := ∀ p ∈ ps, p.name ≠ []
+/-- every parameter has a non-empty CLI name (no parameter is named with underscores only) -/
+def NoBlankName (ps : List Param) : Prop := ∀ p ∈ ps, dashedName p.name ≠ []
+
+theorem IdentSig.nonEmpty {ps : List Param} (h : IdentSig ps) : NonEmptyNames ps := by
+  intro p hp e
+  have := h p hp
+  rw [e] at this
+  simp [pyIdent] at this
+
+/-- a name that does not consist of underscores only has a non-empty CLI name -/
+theorem noBlankName_of_not_all_underscores {ps : List Param} (h : ∀ p ∈ ps, allUnderscores p.name = false) :
+    NoBlankName ps := fun p hp => dashedName_ne_nil (h p hp)
+
+/-- Since fix #29: a context is only ever built for a signature without blank names. -/
+theorem built_implies_no_blank_name {nm : Tok} {o : TaskOpts} {ps : List Param} {c : Ctx}
+    (hne : NonEmptyNames ps) (h : mkCtx nm o ps = .ok c) : NoBlankName ps := by
+  intro p hp
+  have hb := (mkCtx_ok_iff.1 h).1
+  exact ne_nil_of_blank_false (hne p hp) (List.any_eq_false.1 hb p hp |> fun x => by simpa using x)
+
+/-- …and a blank name always makes building fail with `ValueError`. -/
+theorem blank_name_refused {nm : Tok} {o : TaskOpts} {ps : List Param} (hnn : NonEmptyNames ps)
+    (h : ¬ NoBlankName ps) : mkCtx nm o ps = .error (.other "ValueError" "blank-name") := by
+  have : ps.any blankName = true := by
+    apply Classical.byContradiction
+    intro hcon
+    apply h
+    intro p hp hd
+    have hb : blankName p = false := by
+      cases hb : blankName p with
+      | false => rfl
+      | true => exact absurd (List.any_eq_true.2 ⟨p, hp, hb⟩) hcon
+    exact ne_nil_of_blank_false (hnn p hp) hb hd
+  unfold mkCtx getArguments
+  simp [this]
 
 /-- the parameter has a `--no-` form: default `True` and not declared value-optional -/
 def Param.defaultTrue (o : TaskOpts) (p : Param) : Prop :=
@@ -40,7 +77,7 @@ theorem one_arg_per_param (o : TaskOpts) (ps : List Param) :
 /-- …and the context built from it holds exactly these arguments, in the same order. -/
 theorem context_holds_the_arguments {nm : Tok} {o : TaskOpts} {ps : List Param} {c : Ctx}
     (h : mkCtx nm o ps = .ok c) : c.args = (argList o ps).map Arg.init :=
-  (ofSpecsChecked_tables (mkCtx_ok_iff.1 h).2).1
+  (ofSpecsChecked_tables (mkCtx_ok_iff.1 h).2.2).1
 
 /-! ## well-formed long flag, at most one short flag -/
 
@@ -56,7 +93,7 @@ theorem long_flag_wellformed {o : TaskOpts} {ps : List Param} (hid : IdentSig ps
       toFlag main = (if main.length = 1 then '-' :: main else '-' :: '-' :: main) := by
   intro a ha
   rcases mem_argList ha with ⟨p, hp, t, rfl⟩
-  refine ⟨dashedName p.name, _, argOpts_names o _ p t, ?_, dashedName_ne_nil (hnb p hp),
+  refine ⟨dashedName p.name, _, argOpts_names o _ p t, ?_, hnb p hp,
     dashedName_no_underscore _, dashedName_chars (hid p hp), (dashedName_ends_alnum (hid p hp)).1,
     (dashedName_ends_alnum (hid p hp)).2, toFlag_of_no_underscore (dashedName_no_underscore _)⟩
   rw [argOpts_pyName, dashedName_eq_translate]
@@ -106,41 +143,58 @@ theorem context_tables {nm : Tok} {o : TaskOpts} {ps : List Param} {c : Ctx} (h 
     c.flagNames = (argList o ps).flatMap ArgSpec.flagNames ∧
     c.inverse = ((argList o ps).filter ArgSpec.hasInverse).map
       (fun a => (toFlag ("no-".toList ++ a.names.headD []), toFlag (a.names.headD []))) := by
-  have := ofSpecsChecked_tables (mkCtx_ok_iff.1 h).2
+  have := ofSpecsChecked_tables (mkCtx_ok_iff.1 h).2.2
   exact ⟨this.2.1, this.2.2.1⟩
 
 /-- HEADLINE.  Whenever the context of a task is built, all its flag names — long, short and inverse —
     are pairwise distinct. -/
-theorem flags_distinct {nm : Tok} {o : TaskOpts} {ps : List Param} {c : Ctx} (hnb : NoBlankName ps)
+theorem flags_distinct {nm : Tok} {o : TaskOpts} {ps : List Param} {c : Ctx} (hne : NonEmptyNames ps)
     (h : mkCtx nm o ps = .ok c) : (c.flagNames ++ c.inverseNames).Nodup := by
-  refine ofSpecsChecked_flags_nodup ?_ (mkCtx_ok_iff.1 h).2
+  have hnb := built_implies_no_blank_name hne h
+  refine ofSpecsChecked_flags_nodup ?_ (mkCtx_ok_iff.1 h).2.2
   intro sp hsp
   rcases mem_argList hsp with ⟨p, hp, t, rfl⟩
   exact argOpts_normalSpec (hnb p hp)
 
 /-- Every name of an argument spells a flag that reaches exactly that argument: the flag table maps it to
     the argument's slot, and the slot holds the argument (untouched). -/
-theorem flag_reaches_its_argument {nm : Tok} {o : TaskOpts} {ps : List Param} {c : Ctx} (hnb : NoBlankName ps)
+theorem flag_reaches_its_argument {nm : Tok} {o : TaskOpts} {ps : List Param} {c : Ctx} (hne : NonEmptyNames ps)
     (h : mkCtx nm o ps = .ok c) {j : Nat} {a : ArgSpec} (hj : (argList o ps)[j]? = some a)
     {n : Tok} (hn : n ∈ a.names) :
     assoc? (toFlag n) c.flags = some j ∧ c.args[j]? = some (Arg.init a) := by
-  refine ofSpecsChecked_flag_reaches ?_ (mkCtx_ok_iff.1 h).2 hj hn
+  have hnb := built_implies_no_blank_name hne h
+  refine ofSpecsChecked_flag_reaches ?_ (mkCtx_ok_iff.1 h).2.2 hj hn
   intro sp hsp
   rcases mem_argList hsp with ⟨p, hp, t, rfl⟩
   exact argOpts_normalSpec (hnb p hp)
 
-/-- Building fails only with `ValueError`, and only when a help key names no parameter, two parameters
-    share a CLI name, or a parameter's CLI name is the `--no-` form of a default-true boolean. -/
-theorem error_only_on_clash {nm : Tok} {o : TaskOpts} {ps : List Param} {e : Err} (hnb : NoBlankName ps)
+/-- Building fails only with `ValueError`, and only when a parameter has a blank name, a help key names no
+    parameter, two parameters share a CLI name, or a parameter's CLI name is the `--no-` form of a default-true
+    boolean. -/
+theorem error_only_on_clash {nm : Tok} {o : TaskOpts} {ps : List Param} {e : Err} (hnn : NonEmptyNames ps)
     (h : mkCtx nm o ps = .error e) :
     (∃ site, e = .other "ValueError" site) ∧
-    (helpOK o ps = false ∨ ¬ (ps.map (fun p => dashedName p.name)).Nodup ∨ ¬ NoInverseCollision o ps) := by
+    (¬ NoBlankName ps ∨ helpOK o ps = false ∨ ¬ (ps.map (fun p => dashedName p.name)).Nodup ∨
+      ¬ NoInverseCollision o ps) := by
   unfold mkCtx getArguments at h
+  cases hbl : ps.any blankName with
+  | true =>
+    rw [hbl] at h
+    simp only [if_true, Except.error.injEq] at h
+    refine ⟨⟨_, h.symm⟩, Or.inl ?_⟩
+    intro hnb
+    rcases List.any_eq_true.1 hbl with ⟨p, hp, hb⟩
+    exact hnb p hp ((blankName_true_iff p).1 hb).2
+  | false =>
+  rw [hbl] at h
+  simp only [Bool.false_eq_true, if_false] at h
+  have hnb : NoBlankName ps := fun p hp =>
+    ne_nil_of_blank_false (hnn p hp) (by simpa using List.any_eq_false.1 hbl p hp)
   cases hh : helpOK o ps with
   | false =>
     rw [hh] at h
     simp only [Bool.false_eq_true, if_false, Except.error.injEq] at h
-    exact ⟨⟨_, h.symm⟩, Or.inl rfl⟩
+    exact ⟨⟨_, h.symm⟩, Or.inr (Or.inl rfl)⟩
   | true =>
     rw [hh] at h
     simp only [if_true] at h
@@ -148,7 +202,7 @@ theorem error_only_on_clash {nm : Tok} {o : TaskOpts} {ps : List Param} {e : Err
       intro sp hsp
       rcases mem_argList hsp with ⟨p, _, t, rfl⟩
       rw [argOpts_names]; simp
-    refine ⟨foldChecked_error hne h, Or.inr ?_⟩
+    refine ⟨foldChecked_error hne h, Or.inr (Or.inr ?_)⟩
     -- otherwise the constructor loop would have accepted everything
     refine Classical.byContradiction fun hcon => ?_
     have hd : (ps.map (fun p => dashedName p.name)).Nodup := Classical.byContradiction fun x => hcon (Or.inl x)
@@ -173,27 +227,30 @@ theorem error_only_on_clash {nm : Tok} {o : TaskOpts} {ps : List Param} {e : Err
     rw [hc'] at h; cases h
 
 /-- Both outcomes in one statement: either a context with pairwise distinct flag names, or a `ValueError`
-    whose cause is a leftover help key, a shared CLI name or a colliding `--no-` form. -/
-theorem flags_distinct_or_error (nm : Tok) (o : TaskOpts) (ps : List Param) (hnb : NoBlankName ps) :
+    whose cause is a blank name, a leftover help key, a shared CLI name or a colliding `--no-` form. -/
+theorem flags_distinct_or_error (nm : Tok) (o : TaskOpts) (ps : List Param) (hnn : NonEmptyNames ps) :
     match mkCtx nm o ps with
     | .ok c => (c.flagNames ++ c.inverseNames).Nodup
     | .error e => (∃ site, e = .other "ValueError" site) ∧
-        (helpOK o ps = false ∨ ¬ (ps.map (fun p => dashedName p.name)).Nodup ∨ ¬ NoInverseCollision o ps) := by
+        (¬ NoBlankName ps ∨ helpOK o ps = false ∨ ¬ (ps.map (fun p => dashedName p.name)).Nodup ∨
+          ¬ NoInverseCollision o ps) := by
   cases h : mkCtx nm o ps with
-  | ok c => exact flags_distinct hnb h
-  | error e => exact error_only_on_clash hnb h
+  | ok c => exact flags_distinct hnn h
+  | error e => exact error_only_on_clash hnn h
 
-/-- Conversely, each of these situations makes building fail: a context exists exactly when all help keys
-    are used, the CLI names are pairwise distinct and no `--no-` form collides. -/
-theorem built_iff_no_clash {nm : Tok} {o : TaskOpts} {ps : List Param} (hnb : NoBlankName ps) :
+/-- Conversely, each of these situations makes building fail: a context exists exactly when no CLI name is
+    blank, all help keys are used, the CLI names are pairwise distinct and no `--no-` form collides. -/
+theorem built_iff_no_clash {nm : Tok} {o : TaskOpts} {ps : List Param} (hnn : NonEmptyNames ps) :
     (∃ c, mkCtx nm o ps = .ok c) ↔
-      (helpOK o ps = true ∧ (ps.map (fun p => dashedName p.name)).Nodup ∧ NoInverseCollision o ps) := by
+      (NoBlankName ps ∧ helpOK o ps = true ∧ (ps.map (fun p => dashedName p.name)).Nodup ∧
+        NoInverseCollision o ps) := by
   constructor
   · rintro ⟨c, h⟩
-    have hnd := flags_distinct hnb h
+    have hnd := flags_distinct hnn h
     have ht := context_tables h
     have hfl : c.flagNames = (argList o ps).flatMap ArgSpec.flagNames := ht.1
-    refine ⟨(mkCtx_ok_iff.1 h).1, argList_flags_nodup_dashed (hfl ▸ (List.nodup_append.1 hnd).1), ?_⟩
+    refine ⟨built_implies_no_blank_name hnn h, (mkCtx_ok_iff.1 h).2.1,
+      argList_flags_nodup_dashed (hfl ▸ (List.nodup_append.1 hnd).1), ?_⟩
     intro p hp q hq hq' e
     rcases argList_has (o := o) hp with ⟨t, ha⟩
     rcases argList_has (o := o) hq with ⟨t', hb⟩
@@ -206,11 +263,12 @@ theorem built_iff_no_clash {nm : Tok} {o : TaskOpts} {ps : List Param} (hnb : No
       refine List.mem_map.2 ⟨(toFlag ("no-".toList ++ dashedName q.name), toFlag (dashedName q.name)), ?_, rfl⟩
       exact List.mem_map.2 ⟨_, List.mem_filter.2 ⟨hb, argOpts_hasInverse.2 hq'⟩, by rw [argOpts_names]; rfl⟩
     exact (List.nodup_append.1 hnd).2.2 _ h1 _ h2 (by rw [e])
-  · rintro ⟨hh, hd, hc⟩
+  · rintro ⟨hb, hh, hd, hc⟩
     cases hm : mkCtx nm o ps with
     | ok c => exact ⟨c, rfl⟩
     | error e =>
-      rcases (error_only_on_clash hnb hm).2 with h | h | h
+      rcases (error_only_on_clash hnn hm).2 with h | h | h | h
+      · exact absurd hb h
       · rw [hh] at h; cases h
       · exact absurd hd h
       · exact absurd hc h
@@ -222,7 +280,7 @@ theorem built_iff_no_clash {nm : Tok} {o : TaskOpts} {ps : List Param} (hnb : No
 theorem implicit_positionals_in_order {nm : Tok} {o : TaskOpts} {ps : List Param} {c : Ctx}
     (hn : (ps.map Param.name).Nodup) (hpos : o.positional = none) (h : mkCtx nm o ps = .ok c) :
     c.positionalNames = (ps.filter Param.noDefault).map Param.name := by
-  have ht := (ofSpecsChecked_tables (mkCtx_ok_iff.1 h).2).2.2.2
+  have ht := (ofSpecsChecked_tables (mkCtx_ok_iff.1 h).2.2).2.2.2
   have e : positionalNames o ps = (ps.filter Param.noDefault).map Param.name := by
     unfold positionalNames; rw [hpos]
   have hs := implicit_positional_nodup_sub hn
@@ -233,7 +291,7 @@ theorem explicit_positionals_in_given_order {nm : Tok} {o : TaskOpts} {ps : List
     (hn : (ps.map Param.name).Nodup) (hpos : o.positional = some l) (hl : l.Nodup)
     (hsub : ∀ x ∈ l, x ∈ ps.map Param.name) (h : mkCtx nm o ps = .ok c) :
     c.positionalNames = l := by
-  have ht := (ofSpecsChecked_tables (mkCtx_ok_iff.1 h).2).2.2.2
+  have ht := (ofSpecsChecked_tables (mkCtx_ok_iff.1 h).2.2).2.2.2
   have e : positionalNames o ps = l := by unfold positionalNames; rw [hpos]
   rw [ht, argList_positional_names hn (e ▸ hl) (e ▸ hsub), e]
 
@@ -391,7 +449,7 @@ theorem kwargs_keys_nodup {nm : Tok} {o : TaskOpts} {ps : List Param} {c : Ctx}
     (C01/C07/C18) talk about is this one. -/
 theorem same_context_as_parser_model {nm : Tok} {o : TaskOpts} {ps : List Param} {c : Ctx}
     (h : mkCtx nm o ps = .ok c) : Ctx.ofSpecs (some nm) [] (argList o ps) = .ok c := by
-  have := (mkCtx_ok_iff.1 h).2
+  have := (mkCtx_ok_iff.1 h).2.2
   unfold Ctx.ofSpecsChecked at this
   exact foldChecked_eq_foldlM this
 
@@ -407,6 +465,7 @@ def exOpts : TaskOpts :=
 
 example : IdentSig exParams := by unfold IdentSig; decide
 example : NoBlankName exParams := by unfold NoBlankName; decide
+example : NonEmptyNames exParams := by unfold NonEmptyNames; decide
 example : (exParams.map Param.name).Nodup := by decide
 example : (exParams.map (fun p => dashedName p.name)).Nodup := by decide
 example : helpOK exOpts exParams = true := by decide
@@ -433,17 +492,18 @@ example : ((mkCtx "t".toList { positional := some ["b".toList, "a".toList] }
     [⟨"a".toList, .empty⟩, ⟨"b".toList, .int 1⟩]).toOption.map Ctx.positionalNames) = some ["b".toList, "a".toList] := by
   decide
 
-/-! ## behaviour before the repairs, and the finding that stays -/
+/-! ## behaviour before the repairs -/
 
-/-- KNOWN FINDING (#29).  A parameter named `_` becomes an argument whose CLI name is empty: its flag is the
-    bare `--`.  This is why the theorems above assume `NoBlankName`. -/
+/-- #29 before the repair: a parameter named `_` became an argument whose CLI name is empty — its flag was the
+    bare `--` (the remainder separator).  Now `get_arguments` refuses it with `ValueError`. -/
 theorem underscore_only_counterexample :
-    (argList {} [⟨"_".toList, .empty⟩]).map ArgSpec.names = [[[]]] ∧ toFlag [] = "--".toList ∧
-    ¬ NoBlankName [⟨"_".toList, .empty⟩] := by
-  refine ⟨by decide, by decide, ?_⟩
+    ((mkCtxPinned29 "t".toList {} [⟨"_".toList, .empty⟩]).toOption.map Ctx.flagNames) = some ["--".toList] ∧
+    ¬ NoBlankName [⟨"_".toList, .empty⟩] ∧
+    mkCtx "t".toList {} [⟨"_".toList, .empty⟩] = .error (.other "ValueError" "blank-name") ∧
+    mkCtx "t".toList {} [⟨"a".toList, .int 1⟩, ⟨"__".toList, .none⟩] = .error (.other "ValueError" "blank-name") := by
+  refine ⟨by decide, ?_, by unfold mkCtx getArguments; rfl, by unfold mkCtx getArguments; rfl⟩
   intro h
-  have := h ⟨"_".toList, .empty⟩ (by simp)
-  revert this; decide
+  exact h ⟨"_".toList, .empty⟩ (by simp) (by decide)
 
 /-- #11 before the repair: `def t(c, a=1, a_b=2)` gave `a_b` the short flag `-` (flag `--`);
     now it gets `b`. -/
